@@ -160,6 +160,32 @@ def build(tier):
                replay={"adapter": "c18:projection", "extract": extract})
     P.specns["reward_target"] = r + (1 - d) * g * (vmin + z3.ToReal(j) * dz)
 
+    # the prioritised loss of learn(): every sample's loss is weighted with ITS OWN importance weight - the buffer hands the weights
+    # over as a (B, 1) column, the element-wise loss has shape (B,)  (B = 3 concrete)
+    from . import ndt
+    from .ndt import ND
+    LS = z3.Function("sample_loss", I, z3.RealSort())
+    WT = z3.Function("sample_weight", I, z3.RealSort())
+
+    def nd_mean(ex, st, a, k):
+        x = a[0]
+        if not isinstance(x, ND):
+            raise Undecided("mean of a non-tensor")
+        es = x.elements()
+        return sum(es[1:], es[0]) / len(es)
+    P.lib["torch.mean"] = nd_mean
+    from pyvc import front as _front
+    _o, _m, _f = _front.find_function("agilerl.algorithms.dqn_rainbow.RainbowDQN.learn")
+    P.specns["weighted_mean"] = sum((LS(i) * WT(i) for i in range(3)), z3.RealVal(0)) / 3
+    P.contract("agilerl.algorithms.dqn_rainbow.RainbowDQN.learn", variant="per-weights",
+               region=region("loss = torch.mean(elementwise_loss * weights", "loss = torch.mean(elementwise_loss * weights"),
+               params={**{a.arg: "opaque" for a in _f.args.args + _f.args.kwonlyargs},
+                       "elementwise_loss": (lambda ex, st, l: ND([3], lambda idx: LS(z3ify(idx[0])), "elementwise_loss")),
+                       "weights": (lambda ex, st, l: ND([3, 1], lambda idx: WT(z3ify(idx[0])), "weights"))},
+               requires=[], frame_fields=False, ensures=["loss == weighted_mean"],
+               replay={"adapter": "demos:run", "payload": {"name": "C08b_demo_2"}})
+    P.trusted.append(ndt.DOC + "; torch.mean over a tensor of concrete shape")
+
     def wiring():
         from pyvc import front
         owner, m, fn = front.find_function("agilerl.algorithms.dqn_rainbow.RainbowDQN._dqn_loss")
